@@ -11,7 +11,8 @@ PID = "C14"
 RULE = ("rule-based state machine: a comparable key type (leaf or composite: pair/option/or/comb, incl. address, key_hash, "
         "key, bool, unit) and a universe of 3..8 keys near each other are drawn; rules = set UPDATE (add/remove), map "
         "UPDATE (insert/replace/remove), GET_AND_UPDATE, MEM, GET, SIZE, MAP (value transform), ITER (visit order), "
-        "literal construction (sorted / unsorted / duplicate), DUP that leaves the original below (it must never change while its "
+        "literal construction (sorted / unsorted / duplicate), construction from Python objects given in arbitrary order, keys delivered as "
+        "pushed literals or as DUP copies, DUP that leaves the original below (it must never change while its "
         "copy is updated), all executed as instructions on one live stack. Oracle: "
         "Python dict/set model + reference order; after every step the real collections are strictly increasing in the "
         "reference order and equal the model; observations agree; bad literals are rejected and leave the stack "
@@ -203,6 +204,20 @@ def make_machine(stats, depth):
             self._hold(which)
 
         @precondition(lambda self: self.ready)
+        @rule(idx=st.lists(st.integers(0, 7), min_size=1, max_size=6))
+        def python_build(self, idx):
+            """the same keys given as Python objects in arbitrary order (storage / parameter encoding): the set, map and big_map built
+            from them are sorted by the same order and free of duplicates"""
+            from checks import c03
+            self.hist.append({"op": "python_build", "keys": list(idx)})
+            vals = []
+            for i in idx:
+                k = self.keys[i % len(self.keys)]
+                if all(rv.compare(self.kt, k, o) != 0 for o in vals):
+                    vals.append(k)
+            c03._python_route(self._case(), self.kt, vals, rv.sort_values(self.kt, vals))
+
+        @precondition(lambda self: self.ready)
         @rule()
         def iterate(self):
             self.hist.append({"op": "ITER"})
@@ -318,6 +333,8 @@ def replay(case):
             _call(m, "map_values")
         elif op == "ITER":
             _call(m, "iterate")
+        elif op == "python_build":
+            _call(m, "python_build", idx=step["keys"])
         elif op == "literal":
             _call(m, "literal", idx=step["keys"], mode=step["mode"], which=step["which"], pos=step["pos"])
         elif op == "hold":
